@@ -166,14 +166,18 @@ func orderedVarargs(args []ssa.Value) []ssa.Value {
 
 // recvFieldName renders a Sym that loads a field of the receiver (P0) as the field's name, or "".
 func recvFieldName(f *ssa.Function, s *Sym) string {
-	if s == nil || s.Op != "load" || s.Args[0].Op != "field" || s.Args[0].Args[0].String() != "P0" {
+	if f.Signature.Recv() == nil {
 		return ""
 	}
-	recv := f.Signature.Recv()
-	if recv == nil {
+	return paramFieldName(f, 0, s)
+}
+
+// paramFieldName: s is a load of a field of the struct that parameter k of f points to; the field's name.
+func paramFieldName(f *ssa.Function, k int, s *Sym) string {
+	if s == nil || s.Op != "load" || s.Args[0].Op != "field" || s.Args[0].Args[0].String() != fmt.Sprintf("P%d", k) || k >= len(f.Params) {
 		return ""
 	}
-	t := recv.Type()
+	t := f.Params[k].Type()
 	if p, ok := t.(*types.Pointer); ok {
 		t = p.Elem()
 	}
